@@ -395,7 +395,10 @@ def size_only_feeds_claims(chk, rule, prog):
     si = f.param_index("source_size")
     users = f.users(Arg(f, si))
     n = 0
-    CL = claim_helper(prog)
+    try:
+        CL = claim_helper(prog)
+    except AnalysisBroken:
+        CL = None       # no routine receives the buffer length: every use of it is then a use outside the claim comparison
 
     def only_provided(g, pi_, depth=0):
         """parameter pi_ of the unit-internal helper g is used for nothing but being handed on as the claim routine's `provided`"""
